@@ -187,4 +187,35 @@ theorem decide_plain (uk : Bool) (y m d : Nat) (v : Valid y m d) (hms us : Int) 
 
 theorem dby_1000 : Greg.dby 1000 = 364877 := by decide
 
+/-- the four separators the `ambiguity` regex accepts -/
+theorem sep_cases (c : Char) (h : isDateSep c = true) : c = '-' ∨ c = '/' ∨ c = '.' ∨ c = ' ' := by
+  simp only [isDateSep, Bool.or_eq_true, decide_eq_true_eq] at h
+  rcases h with ((h | h) | h) | h <;> simp [h]
+
+theorem sep_props (c : Char) (h : isDateSep c = true) : c.isDigit = false ∧ c.isAlpha = false := by
+  rcases sep_cases c h with rfl | rfl | rfl | rfl <;> decide
+
+/-- the padded text `aa<sep>bb<sep>yyyy` is the ambiguous form with first number `a` -/
+theorem parse_numeric3 (a b y : Nat) (s1 s2 : Char) (h1 : isDateSep s1 = true) (h2 : isDateSep s2 = true)
+    (ha : a < 100) (hb : b < 100) (hy : y < 10000) :
+    parseCs (pad2 a ++ s1 :: (pad2 b ++ s2 :: (pad4 y ++ [])))
+      = some ⟨true, a, y, (duResolve a b).1, (duResolve a b).2, 0, 0⟩ := by
+  have p1 := sep_props s1 h1
+  have p2 := sep_props s2 h2
+  unfold parseCs
+  have hl : 6 ≤ (pad2 a ++ s1 :: (pad2 b ++ s2 :: (pad4 y ++ []))).length + 1 := by simp [pad_lengths]
+  generalize (pad2 a ++ s1 :: (pad2 b ++ s2 :: (pad4 y ++ []))).length + 1 = fuel at *
+  rw [scan_pad2 _ (by omega) _ _ (ndh_cons _ _ p1.1)]
+  rw [scan_sep _ (by omega) _ _ p1.1 p1.2]
+  rw [scan_pad2 _ (by omega) _ _ (ndh_cons _ _ p2.1)]
+  rw [scan_sep _ (by omega) _ _ p2.1 p2.2]
+  rw [scan_pad4 _ (by omega) _ _ ndh_nil, scan_nil]
+  rw [val_pad2 a ha, val_pad2 b hb, val_pad4 y hy]
+  simp [parseTokens, parseTime, mk, h1, h2]
+
+theorem mkDateChecked_cases (y m d : Int) : (∃ t, mkDateChecked y m d = .ok t) ∨ mkDateChecked y m d = .error .value := by
+  unfold mkDateChecked; split
+  · exact Or.inl ⟨_, rfl⟩
+  · exact Or.inr rfl
+
 end Pyg.DateParse
